@@ -42,8 +42,15 @@ def run(prop, tier, seed, replay=None):
             raise vf.ToolError(f"ReaderSession model: the {what} counterexample was not found (invariants vacuous)")
         rep.add_states(rd.distinct, rd.generated)
     ev_file = work / "events.ndjson"
-    p = subprocess.run([str(vf.AVH.parent / "avh_c14"), "run", "--out", str(ev_file), "--tier", tier, "--seed", str(seed)],
-                       stdout=subprocess.PIPE, stderr=subprocess.PIPE, text=True, timeout=3000)
+    if replay:
+        payload = json.loads(Path(replay).read_text())["payload"]
+        rin = work / "replay.in.json"
+        rin.write_text(json.dumps(payload))
+        p = subprocess.run([str(vf.AVH.parent / "avh_c14"), "replay", "--in", str(rin), "--out", str(ev_file)],
+                           stdout=subprocess.PIPE, stderr=subprocess.PIPE, text=True, timeout=600)
+    else:
+        p = subprocess.run([str(vf.AVH.parent / "avh_c14"), "run", "--out", str(ev_file), "--tier", tier, "--seed", str(seed)],
+                           stdout=subprocess.PIPE, stderr=subprocess.PIPE, text=True, timeout=3000)
     if p.returncode != 0:
         raise vf.ToolError("avh_c14 failed: " + p.stderr[-400:])
     groups, cur = [], []
@@ -76,14 +83,14 @@ def run(prop, tier, seed, replay=None):
     rep.cov["session_calls"] = sum(len(e["calls"]) for e in ss)
     rep.cov["sessions_converted_after_error"] = sum(
         1 for e in ss if any(c["r"] == "switch" and any(x["r"] == "err" for x in e["calls"][:i]) for i, c in enumerate(e["calls"])))
-    if not ss or rep.cov["sessions_converted_after_error"] == 0:
+    if not replay and (not ss or rep.cov["sessions_converted_after_error"] == 0):
         raise vf.ToolError("vacuous run: no session converts the reader after an error")
     rep.cov["distinct_nontrivial"] = len({(e["fid"], e["kind"], e["k"], e["mask"]) for e in dm
                                           if e["kind"] != "cut" or 0 < e["k"] < len(files[e["fid"]]["bytes"])})
     rep.cov["rule"] = RULE
     rep.cov["files"] = [{k: f[k] for k in ("codec", "kind", "per_block", "nblocks")} | {"len": len(f["bytes"])} for f in files.values()]
     rep.cov["exhaustive"] = True
-    if not any(e["kind"] == "marker" for e in dm) or not any(e["kind"] == "cut" and e["n_err"] > 0 for e in dm):
+    if not replay and (not any(e["kind"] == "marker" for e in dm) or not any(e["kind"] == "cut" and e["n_err"] > 0 for e in dm)):
         raise vf.ToolError("vacuous run: no marker alterations or no erroring cuts")
     for e in dm[100:102] + [x for x in dm if x["kind"] == "marker"][:1]:
         rep.sample({k: e[k] for k in ("fid", "kind", "k", "mask", "open_ok", "n_ok", "n_err", "after_err")})
